@@ -1,13 +1,15 @@
 """C08 -- concurrent transactions on a tree merge, serialize or conflict - nothing else."""
 import random as _r
 
+from harness import caseutil
+
 from harness.families import ALL_FAMS
 from harness.minijar import Storage, Jar, ConflictError
 from harness.treelib import TreeEnv, walk_invariants
-from harness.props.c04 import f16_condition
+from harness.props.c04 import f16_condition, commit_detecting_f33
 
 PROPS_FILE = "Props/C08.v"
-MODEL_FILES = ["Model/RTree.v", "Model/TreeRun.v", "Model/Persist.v", "Model/PersistSpec.v"]
+MODEL_FILES = ["Model/RTree.v", "Model/TreeRun.v", "Model/Persist.v", "Model/PersistSpec.v", "Model/Concurrent.v", "Model/ConcurrentRun.v"]
 RULE = ("a committed base tree (random history, 0..25 keys, node sizes (2,2)..(4,4) and defaults), two transactions of 1..3 "
         "operations (insert / delete / replace / clear) run on separate connections from the same base and committed one "
         "after the other with conflict resolution, both orders; a third connection reads the result; plus the read-dependency "
@@ -16,7 +18,7 @@ RULE = ("a committed base tree (random history, 0..25 keys, node sizes (2,2)..(4
 ASSUMPTIONS = ["harness/minijar.py implements optimistic concurrency control as ZODB does: read-current check against objects not written, "
                "per-object conflict resolution through _p_resolveConflict with old/committed/new states (references as placeholders), "
                "the store call of an object covers its own read-current entry",
-               "a base tree that is already unsound after its own commit (finding F16 of C04) is skipped"]
+               "a base tree that is already unsound after its own commit (findings F16 / F33 of C04) is skipped"]
 SIZES = [(2, 2), (2, 3), (3, 3), (4, 4), (6, 4), (8, 8), None, None]
 
 
@@ -92,8 +94,21 @@ def path_nodes(env, t, key):
         node = child
 
 
+def leaf_items(env, leaf):
+    """(key, value) pairs of one leaf object in model numbers (sets: value 0)"""
+    items = leaf.__getstate__()[0]
+    if env.setlike:
+        return [(env.km.ik(k), 0) for k in items]
+    return [(env.km.ik(k), env.vm.iv(v)) for k, v in zip(items[0::2], items[1::2])]
+
+
+def kvs(pairs):
+    return "; ".join("KV %s %s" % (caseutil.z(a), caseutil.z(b)) for a, b in pairs)
+
+
 def run(ctx):
     rng = ctx.rng
+    cterms, cmeta = [], []
     ncases = ctx.n(1500, 40000)
     outcomes = {"conflict": 0, "serial": 0, "merged": 0, "skipped-base-unsound": 0}
     for it in range(ncases):
@@ -122,7 +137,8 @@ def run(ctx):
                 for k in dels:
                     apply_op(env, t, ("del", k))
                 unsound_base = f16_condition(env, t)
-                j0.commit()
+                if commit_detecting_f33(j0, t):
+                    unsound_base = True       # finding F33 of C04: the root's record holds an inline copy of a leaf that has its own record
                 base = contents(env, t)
                 jr = Jar(st)
                 tb = jr.get(root)
@@ -132,6 +148,8 @@ def run(ctx):
                 nleaves = len(env.leaf_objects(tb))
                 jars = {1: Jar(st), 2: Jar(st)}
                 trees = {i: jars[i].get(root) for i in (1, 2)}
+                base_leaf_oids = {i: [o._p_oid for o in env.leaf_objects(trees[i])] for i in (1, 2)}
+                base_leaf_items = [leaf_items(env, o) for o in env.leaf_objects(trees[1])]
                 refs = {}
                 readdecl_ok = True
                 for i, ops in ((1, t1ops), (2, t2ops)):
@@ -152,6 +170,14 @@ def run(ctx):
                         if ran:
                             apply_ref(d, op, env.setlike)
                     refs[i] = d
+                # ---- correspondence with Model/Concurrent.v: both transactions leaf-local?
+                local = {}
+                for i in (1, 2):
+                    lo_ = env.leaf_objects(trees[i])
+                    same = [o._p_oid for o in lo_] == base_leaf_oids[i] and all(o._p_oid is not None for o in lo_) and len(lo_) >= 1
+                    regs = jars[i].registered
+                    if same and all(any(r is o for o in lo_) for r in regs) and all(len(o) > 0 for o in lo_):
+                        local[i] = [(pos, leaf_items(env, o)) for pos, o in enumerate(lo_) if any(r is o for r in regs)]
                 first, second = order
                 jars[first].commit()
                 outcome = None
@@ -171,6 +197,18 @@ def run(ctx):
                     inv, final = ["_check: " + str(e)[:60]], None
                 except Exception as e:  # noqa
                     inv, final = ["raises " + type(e).__name__], None
+                if len(local) == 2 and nleaves >= 2 and (outcome == "conflict" or not inv):
+                    try:
+                        fin = [] if outcome == "conflict" else [leaf_items(env, o) for o in env.leaf_objects(t3)]
+                        cterms.append("CC [%s] [%s] [%s] %s [%s]" % (
+                            "; ".join("WCL [%s]" % kvs(x) for x in base_leaf_items),
+                            "; ".join("WCT %d [%s]" % (p_, kvs(x)) for p_, x in local[first]),
+                            "; ".join("WCT %d [%s]" % (p_, kvs(x)) for p_, x in local[second]),
+                            "true" if outcome == "conflict" else "false",
+                            "; ".join("WCL [%s]" % kvs(x) for x in fin)))
+                        cmeta.append((fn, kind, impl, (ml, mi), base_keys, dels, t1ops, t2ops, order))
+                    except Exception:  # noqa
+                        pass
                 ops1, ops2 = (t1ops, t2ops) if first == 1 else (t2ops, t1ops)
                 serial = dict(base)
                 for op in ops1:
@@ -242,6 +280,14 @@ def run(ctx):
             if j.readcurrent or j.registered:
                 ctx.oracle_failure("%s:%s:pure-read-declares-dependency" % (impl, kind), "%s%s/%s: lookups/range queries/iteration/len left read-current=%d registered=%d" % (
                     fn, kind, impl, len(j.readcurrent), len(j.registered)), {"family": fn, "kind": kind, "impl": impl, "base": base_keys})
+    hdr = ("From Coq Require Import ZArith List.\nFrom BT Require Import Model.CaseUtil Model.TreeRun Model.Concurrent Model.ConcurrentRun.\n"
+           "Import ListNotations.\nOpen Scope Z_scope.\n")
+    total, badc, errs = caseutil.eval_cases("c08", hdr, "cccase_ok", cterms, shard=400, ctype="wccase")
+    for e in errs:
+        ctx.corr_mismatch("c08 case file", e)
+    for i in badc[:5]:
+        ctx.corr_mismatch("Concurrent model (commit2) vs implementation on leaf-local transactions", {"case": cmeta[i]})
+    ctx.cov["leaf_local_transaction_pairs_compared_with_commit2"] = total
     ctx.cov["outcomes"] = outcomes
     ctx.traces = ctx.evaluations
 
